@@ -85,7 +85,7 @@ theorem upgrade_condemned_fails (c : Ctx) (t : Nat) (o : Obj) (ho : c.heap.get t
   · rfl
   · simp [hp, hc]
 
-theorem run_append (a : Arena) (o1 o2 : List Op) : a.run (o1 ++ o2) = (a.run o1).run o2 := by
+private theorem run_append (a : Arena) (o1 o2 : List Op) : a.run (o1 ++ o2) = (a.run o1).run o2 := by
   induction o1 generalizing a with
   | nil => rfl
   | cons op o1 ih => simp only [List.cons_append, Arena.run]; exact ih _
